@@ -164,6 +164,44 @@ CHECKS = {
              "count, i.e. the memoisation mechanism the property names. A slowdown with unchanged evaluation counts "
              "is not detected. CPU seconds are recorded, never judged.",
         design="6/C19"),
+    "C05": dict(
+        category="model_checking",
+        technique="TLA+ model of the id allocation / dispatch protocol (MexIds.tla) model-checked for every sequence of "
+                  "class shapes in the bound; TLC trace validation (MexTrace!IdTables + per-site routine identity) of the "
+                  "scanned .m files and MEX source",
+        text="Design level: TLC explores MexIds (unnamed slot and -1/+1 shuffle for virtual classes, the skip logic of "
+             "the second pass) for all sequences of <= 2 (quick) / 3 (thorough) classes x {virtual, ctors, methods, "
+             "properties, statics, deserialize, functions} and checks Consistent. Code level: for TLC-derived modules "
+             "and fixtures x (ignore, serialization) every `<module>_wrapper(<id>` call site of every .m file, every "
+             "`case` and every routine is scanned; TLC checks ids contiguous from 0, one site / one case / one routine "
+             "each, and that the case reached from a site runs the routine of the same class, role, member and overload.",
+        note="The numbering itself is not predicted (the property is order-free). Trusted: scanners proj_m / "
+             "proj_mexcpp (self-test tools/selftest_scanners.py).",
+        design="6/C05"),
+    "C06": dict(
+        category="model_checking",
+        technique="TLA+ Mex.tla (Arities, guards, unwrap modes, call parameters with defaults, return wrapping) "
+                  "evaluated by TLC on each observed module and compared with scanned guards and routine bodies",
+        text="For every constructor, method, static method and free function of TLC-derived modules (signature "
+             "universe: <= 2-3 arguments x default masks x passing modes x return shapes, templated or not) TLC "
+             "derives the k+1 overloads and for each the MATLAB guard (count, isa type, size tests), the expected "
+             "checkArguments count, the unwrap statement of every argument (index, mode, type, pointer name), the call "
+             "expression with the omitted defaults' text, and the return wrapping; the scanned .m / .cpp must agree.",
+        note="The type-name formatting tables of the generator are part of the specification (transcribed). Executed "
+             "gateways are part of C11. Two deviations pinned by golden files are known findings.",
+        design="6/C06"),
+    "C10": dict(
+        category="model_checking",
+        technique="TLA+ Mex.tla (Toolbox files, classdef structure, Preamble) evaluated by TLC and compared with the "
+                  "scanned output directory",
+        text="File set equality (one classdef per non-ignored class instantiation, one function file per free-function "
+             "name, one enumeration per enum, class-scoped enums in +Class packages, exactly one MEX source), classdef "
+             "frame (base or handle, pointer property, constructor frame, delete, display, one method / static per "
+             "distinct name, get/set per property, serialization methods), enumerators numbered 0..n-1, collectors / "
+             "delete loops / RTTI entries / typedefs of the preamble; the generator must not raise on an instantiable "
+             "module.",
+        note="Modules that declare the same name twice in a scope, or use an Eigen type as base class, are not judged.",
+        design="6/C10"),
 }
 
 NOT_YET = "not yet built in this session; planned per DESIGN.md section 6"
